@@ -4454,10 +4454,14 @@ class ParseCtx:
                 i += 1
                 if contents[i] == "x" or contents[i] == "u":
                     if contents[i] == "u":
-                        raise NotImplementedError("don't support uescapes yet")
+                        raise IllegalParseTree("Unicode escapes are not supported in string " + escaped_string)
                     code = contents[i+1:i+3]
+                    if len(code) != 2 or any(x not in string.hexdigits for x in code):
+                        raise IllegalParseTree("Invalid \\x escape (expected two hex digits) in string " + escaped_string)
                     result += chr(int(code, base=16))
                     i += 3
+                elif contents[i] not in "nrtb0\"\\":
+                    raise IllegalParseTree("Unknown escape sequence \\" + contents[i] + " in string " + escaped_string)
                 else:
                     result += {
                         'n': '\n',
